@@ -793,9 +793,9 @@ func (c *Ctx) ruleMalformedEndsLink(rr *RuleRep) {
 				}
 				if isIt(c.errResult(ret)) {
 					good = true
-				} else if len(ret.Results) > 0 {
+				} else if rv := c.Resolve(c.errResult(ret)); rv != nil {
 					// the result variable joined over the arms: what it holds on the paths through this failure edge
-					if vs, reached := valuesAlong(f, ifEdge{edges[0].B, edges[0].K}, ret, ret.Results[len(ret.Results)-1], nil); reached && len(vs) == 1 && isIt(vs[0]) {
+					if vs, reached := valuesAlong(f, ifEdge{edges[0].B, edges[0].K}, ret, rv, nil); reached && len(vs) == 1 && isIt(vs[0]) {
 						good = true
 					}
 				}
@@ -906,7 +906,7 @@ func (c *Ctx) ruleMalformedEndsLink(rr *RuleRep) {
 			}
 			// reject edge returns ErrInvalidPacket; every success return is dominated by the accept edge
 			retOK := false
-			for in := range ReachableFromBlock(p, blk.Succs[rej], PathQ{}) {
+			for in := range ReachableViaEdge(p, ifEdge{blk, rej}, PathQ{}) {
 				if ret, ok := in.(*ssa.Return); ok {
 					if call, _ := c.asCall(c.errResult(ret)); call != nil && len(call.Call.Args) > 0 && c.isGlobalLoad(call.Call.Args[0], "ErrInvalidPacket") {
 						retOK = true
@@ -992,7 +992,7 @@ func (c *Ctx) ruleMalformedEndsLink(rr *RuleRep) {
 				continue
 			}
 			rejects := func(k int) bool {
-				for in := range ReachableFromBlock(us, blk.Succs[k], PathQ{BlockInstr: func(i ssa.Instruction) bool { _, isIf := i.(*ssa.If); return isIf }}) {
+				for in := range ReachableViaEdge(us, ifEdge{blk, k}, PathQ{BlockInstr: func(i ssa.Instruction) bool { _, isIf := i.(*ssa.If); return isIf }}) {
 					if ret, ok := in.(*ssa.Return); ok {
 						if call, _ := c.asCall(c.errResult(ret)); call != nil && len(call.Call.Args) > 0 && c.isGlobalLoad(call.Call.Args[0], "ErrInvalidRune") {
 							return true
